@@ -1116,9 +1116,11 @@ class DFA(fa.FA):
 
         def expand_state_fn(state: DFAStateT) -> ExpandStateReturnType:
             q_a, q_b = state
-            # Have to use .get() here since these might be trap states
-            transitions_a = lhs.transitions.get(q_a, {})
-            transitions_b = rhs.transitions.get(q_b, {})
+            # These might be trap states, which have no transitions (a row of
+            # the transition table that happens to be keyed by the trap's id
+            # belongs to no state)
+            transitions_a = lhs.transitions.get(q_a, {}) if q_a in lhs.states else {}
+            transitions_b = rhs.transitions.get(q_b, {}) if q_b in rhs.states else {}
 
             for chr in transitions_a.keys() | transitions_b.keys():
                 # Equivalent to reaching the trap state, skip ahead if irrelevant
